@@ -62,7 +62,8 @@ SizedModes == {SzConst(0), SzConst(1), SzConst(2), SzField("pre"),
                Defer(EBin("mul", EF("pre"), EC(2))), Defer(EBin("sub", EF("pre"), EC(1))),
                Lam(EBin("add", EF("pre"), EC(1))), Lam(EBin("sub", EF("pre"), EC(2))),
                Lam(EBin("sub", ERest, EC(1))),
-               Defer(EBin("add", EC(1), EBin("floordiv", EC(2), EF("pre"))))}      \* raises for pre = 0, operands left behind
+               Defer(EBin("add", EC(1), EBin("floordiv", EC(2), EF("pre")))),      \* raises for pre = 0, operands left behind
+               Defer(EBin("lshift", EC(1), EF("pre"))), Defer(EBin("rshift", EC(4), EF("pre"))), Defer(EBin("mod", EC(5), EF("pre")))}
 MarkerModes(b) == {SzMarker(b, i, c) : i \in BOOLEAN, c \in BOOLEAN} \ {SzMarker(b, TRUE, FALSE)}
 RegexModes(r) == {SzRegex(r, i, c) : i \in BOOLEAN, c \in BOOLEAN} \ {SzRegex(r, TRUE, FALSE)}
 Windows == {-1, 0, 1, 2, 3}
@@ -88,6 +89,10 @@ U_C06(zz) ==
     \cup {DeclO(DefaultOpts, <<DataF("d", md), U1("post")>>, {81, 90, 1}, 4) : md \in RegexModes("QnotZ")}
     \cup {DeclO(DefaultOpts, <<DataF("d", md), U1("post")>>, {88, 1}, 4) : md \in RegexModes("caretX") \cup RegexModes("Xplus")}
     \cup {DeclO([DefaultOpts EXCEPT !.sbl = w], <<DataF("d", md), U1("post")>>, {0, 1, 65}, 4) : md \in MarkerModes(<<0>>), w \in {-1, 2}}
+    \* the class's search window reaches delimited fields wrapped in a repeated / optional field
+    \cup {DeclO([DefaultOpts EXCEPT !.sbl = 2], <<U1("pre"), wrap, U1("post")>>, {0, 1, 65}, 6) :
+             wrap \in {RepCountF("r", DataF("e", md), SzField("pre"), NoCond, 0) : md \in MarkerModes(<<0>>)}
+                   \cup {OptF("o", DataF("e", md), SzField("pre")) : md \in MarkerModes(<<0>>) \cup {SzRegex("crlf", FALSE, TRUE)}}}
     \* the same field one level down, after a header byte of the outer packet
     \cup {DeclP([C0 |-> Class(DefaultOpts, <<U1("h"), RefF("s", "C1"), U1("t")>>),
                  C1 |-> Class([DefaultOpts EXCEPT !.sbl = w], <<U1("pre"), DataF("d", md), U1("post")>>)],
@@ -149,6 +154,9 @@ U_C08_Until(zz) == {CtlDecl(<<U1("t"), RepUntilF("r", e, u, w, a), U1("z")>>, 5)
                \cup {CtlDecl(<<U1("t"), RepUntilF("r", RefF("e", "C1"), u, w, a), U1("z")>>, 5) :
                    u \in UntilPkt, w \in {NoCond, Defer(EBin("eq", EF("t"), EC(1)))}, a \in {0, 3}}
 U_C08_Opt(zz) == {CtlDecl(<<U1("t"), OptF("o", e, w), U1("z")>>, 4) : e \in Elems, w \in Whens \ {NoCond}}
+             \* a declared default is what a CONSTRUCTED packet holds; a parse that skips the field leaves None
+             \cup {CtlDecl(<<U1("t"), [OptF("o", U1("e"), SzField("t")) EXCEPT !.dflt = IntV(7)],
+                             [RepCountF("r", U1("e"), SzConst(1), SzField("t"), 0) EXCEPT !.dflt = <<IntV(5)>>], U1("z")>>, 4)}
 \* packets inside sequences inside packets
 U_C08_Nest(zz) == {DeclP([C0 |-> Class(DefaultOpts, <<S1("n"), RepCountF("r", RefF("e", "C1"), SzField("n"), NoCond, 0), U1("z")>>),
                       C1 |-> Class(DefaultOpts, <<U1("m"), RepCountF("s", U1("e"), SzField("m"), NoCond, 0),
@@ -171,7 +179,11 @@ U_C08_Desc(zz) == {CtlDecl(<<AutoLenOf(U1("n"), "r"), U1("t"), RepCountF("r", U1
               \cup {CtlDecl(<<AutoE(U1("n"), EC(0)), RefSelF("v", EF("n"), <<[key |-> 0, alt |-> IntF("", 1, FALSE, "default")],
                                                                              [key |-> 1, alt |-> IntF("", 2, FALSE, "default")]>>, "chooses", IntV(0)),
                              U1("z")>>, 4),
-                     CtlDecl(<<AutoLenOf(U1("n"), "d"), DataF("d", Defer(EBin("add", EF("n"), EC(0)))), U1("z")>>, 4)}
+                     CtlDecl(<<AutoLenOf(U1("n"), "d"), DataF("d", Defer(EBin("add", EF("n"), EC(0)))), U1("z")>>, 4),
+                     \* a prototype built WITH the described keyword: packets parsed through the reference are not "assigned"
+                     DeclP([C0 |-> Class(DefaultOpts, <<U1("h"), [RefF("s", "C1") EXCEPT !.over = <<[n |-> "n", v |-> IntV(9)]>>], U1("t")>>),
+                            C1 |-> Class(DefaultOpts, <<AutoLenOf(U1("n"), "d"), DataF("d", SzMarker(<<0>>, FALSE, TRUE))>>)],
+                           {0, 1, 2, 65}, 5, {0})}
 \* embedding references: the fields of the referenced class parsed / serialised as fields of the embedding class
 SubLen == Class(DefaultOpts, <<AutoLenOf(U1("n"), "d"), DataF("d", SzField("n"))>>)
 U_C08_Emb(zz) == {DeclP([C0 |-> Class(DefaultOpts, <<U1("h")>> \o Embedded("p", "C1", <<>>, Sub1.fields) \o <<U1("z")>>), C1 |-> Sub1], {0, 1, 2}, 5, {0, 1}),
@@ -246,7 +258,11 @@ U_C03_Mixed(zz) ==
     \cup {DeclO(DefaultOpts, <<U1("a"), BitsF("h", 4), BitsF("l", 4), IntF("b", 2, FALSE, "default"), U1("z")>>, {0, 165, 255}, 5),
           DeclO(DefaultOpts, <<WithDesc(U1("n"), [kind |-> "autolen", of |-> "d"]), IntF("m", 2, FALSE, "default"), DataF("d", SzField("n")),
                                U1("z")>>, {0, 1, 2}, 6),
-          DeclO(DefaultOpts, <<IntF("a", 4, TRUE, "default"), IntF("b", 4, FALSE, "little"), U1("z")>>, {0, 1, 127}, 9)}
+          DeclO(DefaultOpts, <<IntF("a", 4, TRUE, "default"), IntF("b", 4, FALSE, "little"), U1("z")>>, {0, 1, 127}, 9),
+          \* an embedding reference followed by fields that generated code reaches through the field list
+          DeclP([C0 |-> Class(DefaultOpts, <<U1("a")>> \o Embedded("p", "C1", <<>>, Sub1.fields)
+                                           \o <<DataF("m", SzMarker(<<0>>, FALSE, TRUE)), IntF("t", 3, FALSE, "default"), U1("z")>>), C1 |-> Sub1],
+                {0, 1, 2}, 7, {0})}
 U_C03(zz) == U_C03_Fixed(0) \cup U_C03_Mixed(0)
 U_C03_Q(zz) == {d \in U_C03_Fixed(0) : d.prog["C0"].opts.endian = "little" \/ d.prog["C0"].fields[1].k = "Data"
                                  \/ (d.prog["C0"].fields[1].k = "Int" /\ d.prog["C0"].fields[1].n \in {1, 3})} \cup U_C03_Mixed(0)
@@ -283,7 +299,12 @@ U_C12(zz) ==
      DeclP([C0 |-> Class(DefaultOpts, <<U1("h"), RefF("s", "C1"), U1("t")>>),
             C1 |-> Class(DefaultOpts, <<S1("n"), DataF("d", SzField("n")), U1("z")>>)], {0, 1, 2, 254, 255}, 5, {0, 1}),
      DeclP([C0 |-> Class(DefaultOpts, <<U1("n"), DataF("d", Defer(EBin("sub", EF("n"), EC(2)))), DataF("e", Lam(EBin("sub", EF("n"), EC(3)))), U1("z")>>)],
-           {0, 1, 2, 3, 4}, 5, {0})}
+           {0, 1, 2, 3, 4}, 5, {0}),
+     \* a failure whose own message contains a per-cent sign (int % bytes); a kept delimiter that never comes
+     DeclP([C0 |-> Class(DefaultOpts, <<U1("a"), DataF("d", SzConst(1)), DataF("e", Defer(EBin("mod", EF("a"), EF("d")))), U1("z")>>)],
+           {0, 1, 2}, 4, {0}),
+     DeclP([C0 |-> Class([DefaultOpts EXCEPT !.sbl = 3], <<U1("h"), RefF("s", "C1"), U1("t")>>),
+            C1 |-> Class([DefaultOpts EXCEPT !.sbl = 3], <<DataF("m", SzMarker(<<0, 0>>, TRUE, TRUE)), U1("y")>>)], {0, 1}, 6, {0})}
 
 \* -------------------------------------------------------------------- C04 extras
 \* a fixed-size Data alone in its block of generated code; fields placed past the end of the input (F13)
@@ -293,7 +314,10 @@ U_C04_Lone(zz) ==
      DeclO(DefaultOpts, <<IntF("a", 3, FALSE, "default"), DataF("d", SzConst(2)), IntF("b", 3, TRUE, "little")>>, {0, 255}, 8),
      DeclO(DefaultOpts, <<DataF("d", SzConst(3))>>, {0, 65}, 4),
      DeclO([DefaultOpts EXCEPT !.align = 2], <<IntF("a", 3, FALSE, "default"), EOSData("d")>>, {0, 1}, 5),
-     DeclO([DefaultOpts EXCEPT !.align = 4], <<U1("a"), EOSData("d"), EmF("tail")>>, {0, 1}, 5)}
+     DeclO([DefaultOpts EXCEPT !.align = 4], <<U1("a"), EOSData("d"), EmF("tail")>>, {0, 1}, 5),
+     \* a counted run of integers as the last thing decoded (a cut on an element boundary loses whole elements)
+     DeclO(DefaultOpts, <<U1("n"), RepCountF("r", U1("e"), SzField("n"), NoCond, 0)>>, {0, 1, 2, 3}, 4),
+     DeclO(DefaultOpts, <<U1("n"), RepCountF("r", IntF("e", 2, FALSE, "little"), SzField("n"), NoCond, 0)>>, {0, 1, 2}, 5)}
     \cup {DeclP([C0 |-> Class(DefaultOpts, <<U1("a"), MvField(EOSData("d"), mv), EmF("tail")>>)], {0, 1, 2}, 4, {0, 1}) :
              mv \in {[kind |-> "at", arg |-> SzConst(3), ref |-> "innermost-pkt"],
                       [kind |-> "shift", arg |-> SzField("a"), ref |-> "current-offset"],
@@ -306,7 +330,7 @@ U_C04_Lone(zz) ==
 \* -------------------------------------------------------------------- C01 / C14
 \* mixed declarations; C01 leaves out what the property excludes (non-kept regex delimiters other
 \* than EOS, consume_delimiter=False) and described fields.
-RoundTripModes == {SzConst(0), SzConst(2), SzField("a"), Defer(EBin("mul", EF("a"), EC(2))),
+RoundTripModes == {SzConst(0), SzConst(2), SzField("a"), Defer(EBin("mul", EF("a"), EC(2))), Defer(EBin("sub", EF("a"), EC(1))),
                    Lam(EBin("add", EF("a"), EC(1))),
                    SzMarker(<<0>>, FALSE, TRUE), SzMarker(<<0>>, TRUE, TRUE), SzMarker(<<1, 2>>, FALSE, TRUE),
                    SzRegex("Xplus", TRUE, TRUE), SzRegex("EOS", FALSE, TRUE)}
@@ -361,9 +385,18 @@ NoBegins(d) == \A c \in DOMAIN d.prog : \A i \in 1..Len(d.prog[c].fields) :
 NoRawCallable0(d) == \A c \in DOMAIN d.prog : \A i \in 1..Len(d.prog[c].fields) :
                   LET f == d.prog[c].fields[i] IN ~(f.k = "Data" /\ f.size = Lam(EBin("sub", ERest, EC(1))))
 NoRawCallable(d) == NoRawCallable0(d)
-U_C14(zz) == {d \in U_C01(0) \cup U_C06(0) : NoBegins(d) /\ NoRawCallable(d)}
+\* fields that consume nothing at the very end of the input: a placed placeholder, an empty byte string placed with at(),
+\* a counted sequence of empty elements
+U_C14_End(zz) ==
+    {DeclP([C0 |-> Class(DefaultOpts, <<U1("a"), DataF("d", SzField("a")), MvField(EmF("tail"), [kind |-> "aligned", arg |-> SzConst(4), ref |-> "innermost-pkt"])>>)],
+           {0, 1, 2}, 5, {0, 1}),
+     DeclP([C0 |-> Class(DefaultOpts, <<U1("a"), MvField(DataF("d", SzConst(0)), [kind |-> "at", arg |-> SzConst(3), ref |-> "innermost-pkt"])>>)], {0, 1}, 4, {0, 2}),
+     DeclP([C0 |-> Class(DefaultOpts, <<U1("n"), RepCountF("r", DataF("e", SzConst(0)), SzField("n"), NoCond, 0)>>)], {0, 1, 3}, 3, {0, 1}),
+     DeclP([C0 |-> Class(DefaultOpts, <<U1("n"), RepCountF("r", RefF("e", "C1"), SzField("n"), NoCond, 0)>>),
+            C1 |-> Class(DefaultOpts, <<EmF("nothing")>>)], {0, 2, 3}, 3, {0, 1})}
+U_C14(zz) == {d \in U_C01(0) \cup U_C06(0) \cup U_C14_End(0) : NoBegins(d) /\ NoRawCallable(d)}
 IsScan(d) == d.prog["C0"].fields[2].k = "Data" /\ d.prog["C0"].fields[2].size.m \in {"marker", "regex"}
-U_C14_Q(zz) == {d \in {e \in U_C01_Data(0) : e.prog["C0"].opts.endian = "none"} \cup U_C01_Before(0) \cup U_C10_Back(0) \cup U_C08_Nest(0)
+U_C14_Q(zz) == {d \in {e \in U_C01_Data(0) : e.prog["C0"].opts.endian = "none"} \cup U_C01_Before(0) \cup U_C10_Back(0) \cup U_C08_Nest(0) \cup U_C14_End(0)
                    \cup {e \in U_C10_Flat(0) : e.prog["C0"].fields[2].mv.kind = "shift"}
                    \cup {e \in U_C08_Until(0) : e.prog["C0"].fields[2].aligned = 0 /\ e.prog["C0"].fields[2].when = NoCond}
                    \cup {e \in U_C06(0) : Len(e.prog["C0"].fields) = 2 /\ e.prog["C0"].fields[1].k = "Data"}
@@ -409,6 +442,7 @@ PickU(n) ==
       [] n = "U_C01_Before" -> U_C01_Before(0)
       [] n = "U_C01" -> U_C01(0)
       [] n = "U_C01_Q" -> U_C01_Q(0)
+      [] n = "U_C14_End" -> U_C14_End(0)
       [] n = "U_C14" -> U_C14(0)
       [] n = "U_C14_Q" -> U_C14_Q(0)
 =============================================================================
